@@ -54,3 +54,131 @@ Example ex_two_orders :
   snd (run (enough_fuel sy) sy pp (init []) [a; b]) = [AVal [1%Z]; AVal [0%Z]] /\
   snd (run (enough_fuel sy) sy pp (init []) [b; a]) = [AVal [0%Z]; AVal [1%Z]].
 Proof. vm_compute. auto. Qed.
+
+(** * Sentence 2: every rule system, spirals included.
+
+    Vocabulary (Engine.v): a state is a cache (key = (variable, period) -> array), the
+    evaluation stack and the set [invalid] of keys marked for deletion; [calc] is
+    Simulation.calculate: push, [calc_body] (= _calculate), pop, purge.  Proofs are in
+    proofs/EngineC02{Gen,SpiralProofs,Sim,Justify}.v. *)
+From Verif Require Import EngineC02SpiralProofs EngineC02Sim EngineC02Justify.
+
+(** Every value that is readable when a top-level request has returned, and was not
+    already there with that value before the request, is the value that a fresh simulation
+    computes when it is given a set [W] of OTHER values that are readable after the request.
+    Any rule system without eternal variables (cycles, spirals, raising formulas, unknown
+    variables, any [max_loops], any fuel, any outcome of the request itself - value or error).
+
+    Hypothesis [Hpurge] is about the purge, not about the rule system: a mark deletes the
+    stored periods of its variable that it *contains* (InMemoryStorage.delete), and the
+    hypothesis says that, in the state [se] just before the purge, a mark contains no other
+    stored period of its variable than its own.  It holds whenever the periods in play start
+    on a day <= 28 (e.g. the first of the month).  It cannot be dropped: see
+    [ex_purge_hypothesis_needed] below (month:2018-01-29 contains month:2018-01-30, both stop
+    on 2018-02-27), which the implementation reproduces.  Without it the witness consists of
+    values stored and unmarked just before the purge ([retained_values_justified_before_purge]). *)
+Theorem retained_values_justified : forall sy pp f s0 v p,
+  forallb (fun x => negb (unit_eqb (v_unit x) Eternity)) (vars sy) = true ->
+  stack s0 = [] -> invalid s0 = [] ->
+  let se := pop (fst (calc_body (calc f sy pp) sy pp (push (v, p) s0) v p)) in
+  forall Hpurge : (forall m k a, In m (invalid se) -> lookup k (cache se) = Some a ->
+                     fst m = fst k -> contains (snd m) (snd k) = true -> snd m = snd k),
+  let s1 := fst (calc (S f) sy pp s0 v p) in
+  forall k a, lookup k (cache s1) = Some a -> lookup k (cache s0) <> Some a ->
+  exists W : list (key * val),
+    (forall k' a', lookup k' W = Some a' -> k' <> k /\ lookup k' (cache s1) = Some a') /\
+    snd (calc (S f) sy pp {| cache := W; stack := []; invalid := [] |} (fst k) (snd k)) = Ok a.
+Proof. exact retained_justified. Qed.
+Print Assumptions retained_values_justified.
+
+Theorem retained_values_justified_before_purge : forall sy pp f s0 v p,
+  forallb (fun x => negb (unit_eqb (v_unit x) Eternity)) (vars sy) = true ->
+  stack s0 = [] -> invalid s0 = [] ->
+  let se := pop (fst (calc_body (calc f sy pp) sy pp (push (v, p) s0) v p)) in
+  let s1 := fst (calc (S f) sy pp s0 v p) in
+  forall k a, lookup k (cache s1) = Some a -> lookup k (cache s0) <> Some a ->
+  exists W : list (key * val),
+    (forall k' a', lookup k' W = Some a' ->
+       k' <> k /\ lookup k' (cache se) = Some a' /\ ~ In k' (invalid se)) /\
+    snd (calc (S f) sy pp {| cache := W; stack := []; invalid := [] |} (fst k) (snd k)) = Ok a.
+Proof. exact retained_justified_pre. Qed.
+Print Assumptions retained_values_justified_before_purge.
+
+(** The core of the argument (stack-suffix irrelevance and taint filtering in one
+    simulation): a frame (v, p) started in ANY state [s] (any frames below it, any marks
+    already placed) whose body returns a value while (v, p) is still unmarked when it ends,
+    returns what a fresh simulation given the entries unmarked at its start returns. *)
+Theorem unmarked_frame_recomputed_fresh : forall sy pp f s v p s' a,
+  forallb (fun x => negb (unit_eqb (v_unit x) Eternity)) (vars sy) = true ->
+  calc_body (calc f sy pp) sy pp (push (v, p) s) v p = (s', Ok a) ->
+  ~ In (v, p) (invalid s') ->
+  snd (calc (S f) sy pp
+         {| cache := filter (fun kv => negb (existsb (key_eqb (fst kv)) (invalid s))) (cache s);
+            stack := []; invalid := [] |} v p) = Ok a.
+Proof. exact justify_frame. Qed.
+Print Assumptions unmarked_frame_recomputed_fresh.
+
+(** A run that returns a value returns the same value, in the same state, with more fuel. *)
+Theorem more_fuel_same_value : forall sy pp f n s v p s' a,
+  calc f sy pp s v p = (s', Ok a) -> calc (f + n) sy pp s v p = (s', Ok a).
+Proof. exact calc_fuel_ok. Qed.
+Print Assumptions more_fuel_same_value.
+
+(** Non-vacuity.  W = V@last_month + 1; V = W + 1; C = 10.W; D = V; A = D + C, one spiral
+    loop allowed, request A: the cut in V marks V and W but not D; C then reads the tainted
+    W and is marked together with A (the F1 repair).  D = 2 is what stays readable, the
+    hypotheses of [retained_values_justified] hold, and a fresh simulation given nothing
+    computes D = 2. *)
+Example ex_retained_justified :
+  let mv e := mk_var EPerson TInt Month None [((1, 1, 1)%Z, e)] 0%Z false false in
+  let sy := {| vars := [ mv (EBin BAdd (EDep 1 PLastMonth OPlain) (EConst 1));
+                         mv (EBin BAdd (EDep 0 PSame OPlain) (EConst 1));
+                         mv (EBin BMul (EConst 10) (EDep 0 PSame OPlain));
+                         mv (EDep 1 PSame OPlain);
+                         mv (EBin BAdd (EDep 3 PSame OPlain) (EDep 2 PSame OPlain)) ];
+               params := []; switches := []; max_loops := 1 |} in
+  let pp := {| grp := {| Group.g_entity := {| Group.e_key := EmptyString; Group.e_roles := []; Group.e_containing := [] |};
+                         Group.g_count := 1; Group.g_ids := [0]; Group.g_roles := [0] |} |} in
+  let p : period := (Month, (2018, 3, 1)%Z, 1%Z) in
+  let f := (max_loops sy + 2) * List.length (vars sy) in
+  let se := pop (fst (calc_body (calc f sy pp) sy pp (push (4, p) (init [])) 4 p)) in
+  let s1 := fst (calc (S f) sy pp (init []) 4 p) in
+  forallb (fun x => negb (unit_eqb (v_unit x) Eternity)) (vars sy) = true /\
+  marks_exact_b se = true /\
+  snd (calc (S f) sy pp (init []) 4 p) = Ok [12%Z] /\
+  cache s1 = [((3, p), [2%Z])] /\
+  snd (calc (S f) sy pp {| cache := []; stack := []; invalid := [] |} 3 p) = Ok [2%Z].
+Proof. vm_compute. repeat split. Qed.
+
+(** ... [marks_exact_b] decides the purge hypothesis: *)
+Theorem purge_hypothesis_decided : forall s, marks_exact_b s = true ->
+  forall m k a, In m (invalid s) -> lookup k (cache s) = Some a ->
+    fst m = fst k -> contains (snd m) (snd k) = true -> snd m = snd k.
+Proof. exact marks_exact_b_sound. Qed.
+Print Assumptions purge_hypothesis_decided.
+
+(** The purge hypothesis cannot be dropped.  W = W@last_month + 1;
+    A = W@month:2018-01-30 + W@month:2018-01-29; input W@month:2018-01-30 = 5.  Request A:
+    the spiral of W marks W@month:2018-01-29, and the purge of that mark also deletes the
+    unmarked input W@month:2018-01-30 (contained in it).  A = 6 stays readable, nothing else
+    does, and a fresh simulation given nothing computes A = 2. *)
+Example ex_purge_hypothesis_needed :
+  let mv e := mk_var EPerson TInt Month None [((1, 1, 1)%Z, e)] 0%Z false false in
+  let p29 : period := (Month, (2018, 1, 29)%Z, 1%Z) in
+  let p30 : period := (Month, (2018, 1, 30)%Z, 1%Z) in
+  let sy := {| vars := [ mv (EBin BAdd (EDep 0 PLastMonth OPlain) (EConst 1));
+                         mv (EBin BAdd (EDep 0 (PFixed p30) OPlain) (EDep 0 (PFixed p29) OPlain)) ];
+               params := []; switches := []; max_loops := 1 |} in
+  let pp := {| grp := {| Group.g_entity := {| Group.e_key := EmptyString; Group.e_roles := []; Group.e_containing := [] |};
+                         Group.g_count := 1; Group.g_ids := [0]; Group.g_roles := [0] |} |} in
+  let p : period := (Month, (2018, 3, 1)%Z, 1%Z) in
+  let s0 := init [((0, p30), [5%Z])] in
+  let f := (max_loops sy + 2) * List.length (vars sy) in
+  let se := pop (fst (calc_body (calc f sy pp) sy pp (push (1, p) s0) 1 p)) in
+  let s1 := fst (calc (S f) sy pp s0 1 p) in
+  marks_exact_b se = false /\
+  contains p29 p30 = true /\
+  existsb (key_eqb (0, p30)) (invalid se) = false /\
+  cache s1 = [((1, p), [6%Z])] /\
+  snd (calc (S f) sy pp {| cache := []; stack := []; invalid := [] |} 1 p) = Ok [2%Z].
+Proof. vm_compute. repeat split. Qed.
